@@ -310,6 +310,15 @@ def _gen_invariance(seed, cfg):
     rt.shuffle(forms)
     for j_, f_ in enumerate(forms[:rt.randint(1, 3)]):
         cells_t[a1(5, 1 + j_)] = f_ % ((last_t,) * f_.count('%d'))
+    # ranges of different sizes (own stream): "reported as an error rather than silently mis-aligned" - and reporting it
+    # must leave no trace behind for the formulas evaluated afterwards
+    rm_ = core.rng(seed, 'clocksim', 'invariance', 'misaligned')
+    if rm_.random() < 0.5 and last_t >= 3:
+        forms_m = ['=SUMIFS(C1:C%d,B1:B%d,">0")' % (last_t, last_t - 1), '=COUNTIFS(B1:B%d,">0",D1:D%d,"<>x")' % (last_t, last_t - 1),
+                   '=AVERAGEIFS(C1:C%d,B1:B%d,">0")' % (last_t - 1, last_t), '=SUMIFS(C1:C%d,B1:B%d,">0",D1:D%d,"<>q")' % (last_t, last_t, last_t - 2)]
+        rm_.shuffle(forms_m)
+        for j_, f_ in enumerate(forms_m[:rm_.randint(1, 2)]):
+            cells_t[a1(8, j_)] = f_
     timeline = []
     tz = 'UTC0'
     # the second simulated dimension: evaluation / override history.  Between two instants a client may edit
@@ -344,6 +353,8 @@ def _gen_invariance(seed, cfg):
             ent['perm'] = rh.randrange(1 << 30) if rh.random() < 0.5 else 0
             if rh.random() < 0.25:
                 ent['repeat'] = True          # evaluate everything twice at this instant
+            if rh.random() < 0.2:
+                ent['deep'] = True            # pristine side: a brand-new CLASS per cell, not only a new executor
         timeline.append(ent)
     if rule_zone:
         idx = [i for i in range(1, len(timeline)) if rz.random() < 0.5] or [len(timeline) - 1]
@@ -392,7 +403,8 @@ def _exec_invariance(plan):
     try:
         src = Parser().disable_safety_check().set_excel_file_path(WB_PATH).get_translation()
         ns_ = {}
-        exec(compile(src, '<generated>', 'exec'), ns_)
+        code_ = compile(src, '<generated>', 'exec')
+        exec(code_, ns_)
         K = ns_['ExcelInPython']
     except Exception as e:
         return {'digest': core.digest(['translate-failed', type(e).__name__]), 'mismatches': [], 'probes': {'translate_failed': 1},
@@ -406,7 +418,7 @@ def _exec_invariance(plan):
     prev = None
     omap = {}                  # (col,row) -> constant most recently supplied through set_cells
     epoch = 0                  # number of set events so far
-    history = any(('set' in t or t.get('perm') or t.get('repeat')) for t in plan['timeline'])
+    history = any(('set' in t or t.get('perm') or t.get('repeat') or t.get('deep')) for t in plan['timeline'])
     mism = []
 
     def evaluate(executor, t, cc, rr):
@@ -492,7 +504,14 @@ def _exec_invariance(plan):
                     if t['step_ns']:
                         continue
                     probe('today_criterion_compared_with_pristine_executor')
-                pex = Executor().set_executed_class(class_object=K)
+                K_ = K
+                if t.get('deep'):
+                    # no history at all on the pristine side: not even in class-level or module-level state
+                    ns2_ = {}
+                    exec(code_, ns2_)
+                    K_ = ns2_['ExcelInPython']
+                    probe('pristine_side_used_a_brand_new_class')
+                pex = Executor().set_executed_class(class_object=K_)
                 if omap:
                     pex.set_cells([Cell(0, c_, r_, dec_value(v_)) for (c_, r_), v_ in sorted(omap.items())])
                 out, _n = evaluate(pex, t, cc, rr)
@@ -1076,6 +1095,10 @@ def shrink(plan):
                 p = copy.deepcopy(plan)
                 p['timeline'][i].pop('perm', None)
                 p['timeline'][i].pop('repeat', None)
+                yield p
+            if t.get('deep'):
+                p = copy.deepcopy(plan)
+                p['timeline'][i].pop('deep', None)
                 yield p
         for i, t in enumerate(tl):
             if t['tz'] != 'UTC0' or t['step_ns']:
